@@ -52,6 +52,78 @@ theorem timeout_fire_guard (s s' : Sys) (oid : Nat) (h : step? s (.timeoutFire o
 theorem retryable (e : ErrorKind) : e.is_retryable = true ↔ e = .Timeout := by
   cases e <;> simp [ErrorKind.is_retryable]
 
+/-- `timeout_only_while_pending` ("never masking"): whatever the schedule, the step that produces `Err(Timeout)` is
+    enabled only while the operation itself is incomplete - a send still queued for a permit on an open mailbox, or an
+    ask whose reply has neither been sent nor been lost.  An operation that completed before its caller is polled
+    (reply there, permit assigned, mailbox closed) reports that outcome, however late the poll and however long ago
+    the deadline passed: `tokio::time::timeout` polls the operation before the timer (timeout_wrappers_shape). -/
+theorem timeout_only_while_pending (s s' : Sys) (oid : Nat) (h : step? s (.timeoutFire oid) = some s') :
+    (s.client oid = .waiting ∧ s.rxOpen = true ∧
+      ∃ w, s.waiters.find? (fun w => w.oid = oid) = some w ∧ w.granted = false) ∨
+    (s.client oid = .awaiting ∧ s.reply oid ≠ .sent ∧ s.reply oid ≠ .dropped ∧
+      ¬ (s.rxOpen = false ∧ Extracted.ask_wait_watches_closed = true)) := by
+  simp only [step?] at h
+  split at h
+  · split at h
+    · cases h
+    · split at h
+      · rename_i hc
+        split at h
+        · rename_i w hf
+          split at h
+          · cases h
+          · rename_i hg
+            refine Or.inl ⟨hc, ?_, w, hf, ?_⟩
+            · cases hr : s.rxOpen <;> simp_all
+            · cases hw : w.granted <;> simp_all
+        · cases h
+      · rename_i hc
+        split at h
+        · cases h
+        · rename_i hg
+          refine Or.inr ⟨hc, ?_, ?_, ?_⟩
+          · intro h1; exact hg (Or.inl h1)
+          · intro h1; exact hg (Or.inr (Or.inl h1))
+          · intro h1; exact hg (Or.inr (Or.inr ⟨by simp [h1.1], h1.2⟩))
+      · cases h
+  · cases h
+
+/-- `timeout_only_from_timer`: no other step makes an operation return `Err(Timeout)` -/
+theorem timeout_only_from_timer (s s' : Sys) (l : Label) (oid t : Nat) (hs : step? s l = some s')
+    (hnew : Ev.ret oid .timeout t ∈ s'.ev) (hold : Ev.ret oid .timeout t ∉ s.ev) : l = .timeoutFire oid := by
+  step_cases l hs
+  all_goals first
+    | exact absurd hnew hold
+    | (exfalso
+       simp only [Sys.complete, Sys.failSend, Sys.afterPush, Sys.afterStrand, Sys.finish] at hnew
+       (repeat' split at hnew) <;> simp_all
+       done)
+    | (simp [Sys.complete, hold] at hnew
+       rw [hnew.1])
+    | trace_state
+
+/-- failures other than a timeout are reported as themselves, at once: on a closed mailbox the queued sender's next
+    poll returns Err(Send) whether or not a deadline is set or has passed -/
+theorem send_failure_not_delayed (s : Sys) (oid : Nat) (w : Waiter) (mid : Nat) (k : Kind)
+    (hf : s.waiters.find? (fun w => decide (w.oid = oid) && !w.acq) = some w) (hc : s.rxOpen = false)
+    (hi : w.item = .env mid k) :
+    step? s (.grantWake oid) = some ({ s with waiters := s.waiters.erase w }.complete oid .send (some .actorStopped)) := by
+  simp [step?, hf, hc, Sys.failSend, hi]
+
+/-- ... and a lost reply is reported as Err(Receive) at the asker's next poll, before any deadline -/
+theorem lost_reply_not_delayed (s : Sys) (oid : Nat) (hc : s.client oid = .awaiting) (hr : s.reply oid = .dropped) :
+    step? s (.recvReply oid) = some (s.complete oid .receive (some .replyDropped)) := by
+  simp [step?, hc, hr]
+
+-- non-vacuity of "never masking": the reply to a timed ask is sent before the deadline, the asker is polled long
+-- after it: the timer step is refused, the asker's poll returns the reply
+example : ∃ s, run? (init 1 {})
+    [.gate, .startDone, .issue 0 { kind := .ask, timeout := some 5 }, .push 0, .pollTerm, .pollMail,
+     .gate, .handlerDone, .advance 50] = some s ∧
+    step? s (.timeoutFire 0) = none ∧
+    ∃ s', step? s (.recvReply 0) = some s' ∧ Ev.ret 0 (.reply 0) 50 ∈ s'.ev := by
+  refine ⟨_, rfl, by decide, _, rfl, by decide⟩
+
 -- non-vacuity: a timed tell blocked on a full mailbox times out at exactly issue + 25
 example : ∃ s, run? (init 1 {})
     [.gate, .startDone, .issue 0 { kind := .tell }, .push 0, .advance 10,
